@@ -7,7 +7,7 @@ its fragments joined by `/` (`k<hex>` member, `i<int>` index, `w` wildcard; the 
 a list of paths joined by `;` (`-` when empty).
 
 * `diff <s|g> <dev> <0|1> <v0> <v1> <ignores>` — model of Diff (`0`) / of the `one` mode (`1`);
-  `<dev>` is `cur` (`Dev.current`), a subset of the letters `l f t g` (`Dev` flags) or `-`
+  `<dev>` is `cur` (`Dev.current`), a subset of the letters `l f t g u` (`Dev` flags) or `-`
 * `spec <v0> <v1> <ignores>` — specification: the leaf differences no ignore path covers
 * `match <s|g> <dev> <fingerprint> <target>` — model of Match; `specmatch <f> <t>` — specification -/
 namespace OjgVerif.Diff
@@ -108,8 +108,8 @@ def pathsText (ps : List Path) : String :=
 
 def readDev (s : String) : Option Dev :=
   if s = "cur" then some Dev.current
-  else if s.toList.all (fun c => c = 'l' || c = 'f' || c = 't' || c = 'g' || c = '-') then
-    some ⟨s.contains 'l', s.contains 'f', s.contains 't', s.contains 'g'⟩
+  else if s.toList.all (fun c => c = 'l' || c = 'f' || c = 't' || c = 'g' || c = 'u' || c = '-') then
+    some ⟨s.contains 'l', s.contains 'f', s.contains 't', s.contains 'g', s.contains 'u'⟩
   else none
 
 def readFlavour (s : String) : Option Flavour :=
